@@ -356,12 +356,12 @@ CULPRITS = [
     ("throw", 'throw("boom")', "call:throw", True),
     ("throw-multiline", 'throw(\n        "boom"\n    )', "call:throw", True),
     ("throw-obj", "throw(42)", "call:throw", True),
-    ("div-zero", "(one / zero)", "infix:/", False),
-    ("mod-zero", "(one % zero)", "infix:%", False),
-    ("div-zero-multiline", "(one\n      /\n      zero)", "infix:/", False),
+    ("div-zero", "one / zero", "infix:/", False),
+    ("mod-zero", "one % zero", "infix:%", False),
+    ("div-zero-multiline", "one\n      /\n      zero", "infix:/", False),
     ("index-oob", "lst[seven]", "index:", False),
     ("index-neg-oob", "lst[-seven]", "index:", False),
-    ("shift-neg", "(one << (zero - one))", "infix:<<", False),
+    ("shift-neg", "one << (zero - one)", "infix:<<", False),
     ("unwrap-none", "opt.unwrap()", "call:", True),
     ("str-index-oob", 'wrd[seven]', "index:", False),
 ]
@@ -396,9 +396,9 @@ def runtime_cases(rng, n_layout):
                         mods = {}
                         file = "main"
                     else:
-                        lib = pad_lines + "pub fn work() {\n" + body + "}\n"
+                        lib = pad_lines + "pub fn work() {\n" + body + "}\nfn main() {}\n"
                         if where == "module-global-fn":
-                            lib = "fn inner() {\n" + body + "}\n" + pad_lines + "pub fn work() {\n    inner();\n}\n"
+                            lib = "fn inner() {\n" + body + "}\n" + pad_lines + "pub fn work() {\n    inner();\n}\nfn main() {}\n"
                         main = "import work from lib;\nfn main() {\n" + (call % "    work();\n") + "}\n"
                         mods = {"lib": lib}
                         file = "lib"
@@ -425,19 +425,19 @@ STATIC_CULPRITS = [
     ("unknown-ident", "fn main() {{\n    let a = 1;\n    println({C});\n}}\n", "CULPRIT", 3, "Use of undefined variable"),
     ("unknown-ident-multiline", "fn main() {{\n    println(\n        1,\n        {C}\n    );\n}}\n", "CULPRIT", 3,
      "Use of undefined variable"),
-    ("unknown-type", "fn main() {{\n    let a: {C} = 1;\n}}\n", "CULPRIT", 3, "Use of undefined type"),
+    ("unknown-type", "fn main() {{\n    let a: {C} = 1;\n}}\n", "CULPRIT", 3, "Illegal use of undeclared type"),
     ("unused-var", "fn main() {{\n    let {C} = 1;\n}}\n", "culprit", 2, "Variable 'culprit' is unused"),
     ("unused-fn", "fn {C}() {{}}\nfn main() {{}}\n", "culprit", 2, "Function 'culprit' is never used"),
     ("type-mismatch-let", "fn main() {{\n    let _a: int = {C};\n}}\n", '"culprit"', 3, "Mismatched types"),
     ("infix-mismatch", "fn main() {{\n    let _a = 1 + {C};\n}}\n", '"culprit"', 3, "Mismatched types"),
     ("missing-semicolon", "fn main() {{\n    let a = {C}\n    println(a);\n}}\n", "42", "syn", "Missing semicolon"),
-    ("expected-expr", "fn main() {{\n    let a = 1 + {C} 2;\n}}\n", ")", "syn", "Expected an expression"),
+    ("expected-expr", "fn main() {{\n    let a = 1 + {C} 2;\n}}\n", "]", "syn", "Expected an expression"),
     ("illegal-char", "fn main() {{\n    let a = 1 {C} 2;\n}}\n", "`", "syn", "illegal character"),
     ("eof-in-block", "fn main() {{\n    let a = 1;\n{C}", "", "syn", "Expected '}'"),
     ("string-never-closed", "fn main() {{\n    let a = {C}", '"abc\ndef', "syn", "String literal never closed"),
     ("int-overflow", "fn main() {{\n    let _a = {C};\n}}\n", "99999999999999999999", "syn", "Cannot use"),
-    ("break-outside", "fn main() {{\n    {C}\n}}\n", "break;", 3, "Can only use 'break'"),
-    ("call-args", "fn f(a: int) {{ println(a); }}\nfn main() {{\n    f{C};\n}}\n", "(1, 2)", 3, "Function 'f' takes"),
+    ("break-outside", "fn main() {{\n    {C}\n}}\n", "break;", 3, "Illegal use of 'break'"),
+    ("call-args", "fn f(a: int) {{ println(a); }}\nfn main() {{\n    f{C};\n}}\n", "(1, 2)", 3, "Function requires 1 argument"),
 ]
 
 
@@ -448,11 +448,421 @@ def static_cases(rng, n_layout):
             for _ in range(n_layout):
                 pad = "".join(rng.choice(["\n", "// é\n", "/* x\n y */\n", "  \n"]) for _ in range(rng.randrange(0, 4)))
                 text = pad + tmpl.format(C=culprit)
-                rng_ = locate(text, culprit) if culprit else None
+                if culprit:
+                    rng_ = locate(text, culprit)
+                else:
+                    # failure at end of input: the end-of-input position
+                    rng_ = (text.count("\n") + 1, len(text) - (text.rfind("\n") + 1) + 1) * 2
+                if name == "string-never-closed":
+                    # the error extends to the end-of-input position, one past the last character
+                    rng_ = rng_[:2] + (rng_[2], rng_[3] + 1)
                 if where == "main":
                     case = {"main": b(text), "mods": {}, "file": "main"}
                 else:
                     case = {"main": b("import x from lib;\nfn main() {}\n"), "mods": {"lib": b(text)}, "file": "lib"}
                 case.update(name=name, where=where, level=level, prefix=prefix, range=rng_, text=text, culprit=culprit)
                 out.append(case)
+    return out
+
+
+# ---------------------------------------------------------------------------
+# running `hv total` and reading its answers (shared by props/C05.py and props/C08.py)
+# ---------------------------------------------------------------------------
+
+LIMIT_S = 30          # watchdog per input line (the slowest legitimate input takes ~2 s)
+
+
+class Item:
+    __slots__ = ("tag", "kind", "span", "file", "pos", "ord", "disp", "edisp", "ddisp", "msg")
+
+    def __init__(self, text):
+        f = dict(p.split("=", 1) for p in text.split(" ")[1:] if "=" in p)
+        self.tag = text.split(" ", 1)[0]
+        self.kind = int(f["k"])
+        a, e = f["sp"].split("-")
+        self.span = tuple(int(x) for x in a.split(".")) + tuple(int(x) for x in e.split("."))
+        self.file = bytes.fromhex(f["f"][1:]).decode("utf-8", "replace")
+        self.pos, self.ord, self.disp, self.edisp, self.ddisp = f["pos"], f["ord"] == "1", f["disp"], f["edisp"], f["ddisp"]
+        self.msg = bytes.fromhex(f["m"][1:]).decode("utf-8", "replace")
+
+
+class Result:
+    def __init__(self, line):
+        self.raw = line
+        parts = line.split(" | ")
+        head = parts[0].split(" ")
+        self.cls = head[0]
+        self.dead = self.cls in ("CRASH", "HANG") or line.startswith(("CRASH", "HANG", "PANIC x", "BAD-INPUT"))
+        self.fields = dict(p.split("=", 1) for p in head[1:] if "=" in p)
+        self.items = [] if self.dead else [Item(p) for p in parts[1:]]
+        self.mods = [m for m in self.fields.get("mods", "").split(",") if m]
+
+    @property
+    def total_ok(self):
+        return self.cls in ("ok", "errors")
+
+    def describe(self):
+        if self.cls.startswith("PANIC:"):
+            _, where, msg = self.cls.split(":", 2)
+            return f"panic in {where}: {bytes.fromhex(msg[1:]).decode('utf-8', 'replace')[:120]}"
+        if self.raw.startswith(("CRASH", "HANG")):
+            what = bytes.fromhex(self.raw.split(" ")[1][1:]).decode("utf-8", "replace")
+            if "watchdog" in what:
+                return f"does not return within {LIMIT_S}s (hang)"
+            return "process died: " + what[:120]
+        return self.raw[:160]
+
+
+def run_total(cases, limit=LIMIT_S, stop_after_dead=4, chunk=2000):
+    """`hv total` over the cases; stops early (answers None) once several inputs killed the worker,
+    so that a regression that hangs on a whole class of inputs costs seconds, not hours."""
+    out = []
+    dead = 0
+    for i in range(0, len(cases), chunk):
+        if dead >= stop_after_dead:
+            out += [None] * (len(cases) - len(out))
+            break
+        part = cases[i:i + chunk]
+        res = core.go_lines("total", [line_of(c) for c in part], args=("-limit", str(limit)), timeout=max(600, limit * 8))
+        for r in res:
+            rr = Result(r)
+            if rr.dead:
+                dead += 1
+            out.append(rr)
+    return out
+
+
+def case_replay(case, stream=None):
+    """JSON-serialisable form of a case."""
+    return {"kind": "total", "stream": stream or case.get("stream", ""), "main": xhex(case["main"]),
+            "mods": {k: xhex(v) for k, v in case.get("mods", {}).items()},
+            "main_text": case["main"][:400].decode("utf-8", "replace")}
+
+
+def case_of_replay(rep):
+    return {"main": bytes.fromhex(rep["main"][1:]), "mods": {k: bytes.fromhex(v[1:]) for k, v in rep.get("mods", {}).items()},
+            "stream": rep.get("stream", "")}
+
+
+def shrink(case, still_fails, max_steps=300):
+    """Delta-debugging on the text that carries the failure (imported module if there is one, else main)."""
+    field = "main"
+    if case.get("mods") and len(case["mods"]) == 1 and case.get("stream", "").endswith("import"):
+        field = next(iter(case["mods"]))
+    data = case["main"] if field == "main" else case["mods"][field]
+
+    def with_(d):
+        c = dict(case)
+        c["mods"] = dict(case.get("mods", {}))
+        if field == "main":
+            c["main"] = d
+        else:
+            c["mods"][field] = d
+        return c
+    n, steps = 2, 0
+    while len(data) >= 2 and steps < max_steps:
+        chunk = max(1, len(data) // n)
+        reduced = False
+        for i in range(0, len(data), chunk):
+            cand = data[:i] + data[i + chunk:]
+            steps += 1
+            if still_fails(with_(cand)):
+                data, n, reduced = cand, max(n - 1, 2), True
+                break
+            if steps >= max_steps:
+                break
+        if not reduced:
+            if chunk == 1:
+                break
+            n = min(n * 2, len(data))
+    return with_(data)
+
+
+# ---- regression witnesses (findings of this property, all proposed as fixes) -----------------------
+
+WITNESSES = [
+    ("P1", {"main": b"import a from b:`", "mods": {}}, "importIdent ignores the lexer error: the parser never returns"),
+    ("P1", {"main": b"import x from m;\nfn main() {}\n", "mods": {"m": b"import a from b:`"}},
+     "importIdent ignores the lexer error (imported module)"),
+    ("A4", {"main": b"fn f() {} let x = f; fn main() {}", "mods": {}}, "nil CurrentFunction dereference in a global initialiser"),
+    ("A8", {"main": b"import fa from a;\nfn main() {}\n", "mods": {"a": b"import fa from a;\npub fn fa() {}\nfn main() {}\n"}},
+     "importGraphIsCyclic recurses forever on main -> a -> a"),
+    ("A8", {"main": b"import fa from a;\nfn main() {}\n",
+            "mods": {"a": b"import fb from b;\npub fn fa() {}\nfn main() {}\n", "b": b"import fa from a;\npub fn fb() {}\nfn main() {}\n"}},
+     "importGraphIsCyclic recurses forever on main -> a -> b -> a"),
+    ("T1", {"main": b"fn main() { spawn nope(); }", "mods": {}}, "spawn of something that is not callable: nil result type dereferenced"),
+    ("T1", {"main": b"fn n(){spawn a", "mods": {}}, "spawn of an unknown function in a truncated program"),
+]
+
+
+def build_streams(ctx, toks, corp, want_items=False):
+    """The input streams of C05/C08 as a list of (stream name, [case]). Sizes depend on ctx.tier."""
+    rng = ctx.rng
+    quick = ctx.tier == "quick"
+    streams = []
+    mods_all = dict(corp)
+
+    # nesting towers, entry and imported
+    tw = []
+    for n, t in towers(DEPTH):
+        tw.append({"main": t, "mods": {}, "stream": "tower:" + n, "depth": DEPTH})
+        c = as_import(t)
+        c["stream"] = "tower-import:" + n
+        tw.append(c)
+    streams.append(("towers", tw))
+
+    # import graphs of every shape over <= 3 modules, chains
+    g = import_graphs(3)
+    for d in (2, 10, 200):
+        g += import_chain(d)
+    streams.append(("import-graphs", g))
+
+    # corpus: every shipped program with all the others available as modules
+    cs = [{"main": t, "mods": {k: v for k, v in mods_all.items() if k != n}, "stream": "corpus:" + n} for n, t in corp]
+    gens = generated_programs(rng, 10 if quick else 60)
+    cs += [{"main": t, "mods": {}, "stream": "generated:" + n} for n, t in gens]
+    streams.append(("corpus", cs))
+
+    # every prefix (rune boundaries), byte truncations; a share of them as imported module
+    pf = []
+    for n, t in corp + gens:
+        for p in prefixes(t, rng, 10 ** 9 if (len(t) < 4000 or not quick) else 600):
+            pf.append({"main": p, "mods": {}, "stream": "prefix:" + n})
+            if not quick or rng.random() < 0.25:
+                c = as_import(p)
+                c["stream"] = "prefix-import:" + n
+                pf.append(c)
+        for p in byte_truncations(t, rng, 10):
+            pf.append({"main": p, "mods": {}, "stream": "byte-truncation:" + n})
+    streams.append(("prefixes", pf))
+
+    # single-token edits
+    base = [(n, t) for n, t in corp + gens if len(t) < 8000]
+    spans = token_spans([t.decode("utf-8", "replace") for _, t in base])
+    ed = []
+    for (n, t), sp in zip(base, spans):
+        for op, e in token_edits(t, sp, toks, rng, 250 if quick else 10 ** 9):
+            ed.append({"main": e, "mods": {k: v for k, v in mods_all.items() if k != n}, "stream": f"edit-{op}:{n}"})
+            if rng.random() < (0.15 if quick else 0.5):
+                c = as_import(e)
+                c["stream"] = f"edit-{op}-import:{n}"
+                ed.append(c)
+    streams.append(("token-edits", ed))
+
+    # token soup, structured soup, arbitrary bytes
+    n_soup = 6000 if quick else 150000
+    sp = []
+    for _ in range(n_soup):
+        sp.append({"main": token_soup(rng, toks, rng.randrange(1, 40)), "mods": {}, "stream": "soup"})
+        sp.append({"main": structured_soup(rng, toks, rng.randrange(1, 30)), "mods": {}, "stream": "structured-soup"})
+        sp.append({"main": arbitrary_bytes(rng, rng.randrange(0, 80)), "mods": {}, "stream": "bytes"})
+        if rng.random() < 0.2:
+            c = as_import(structured_soup(rng, toks, rng.randrange(1, 30)))
+            c["stream"] = "structured-soup-import"
+            sp.append(c)
+    streams.append(("soup", sp))
+
+    # grammar-directed programs (syntactically valid, semantically arbitrary)
+    streams.append(("wild", wild_cases(rng, 8000 if quick else 200000)))
+
+    # 64 KiB inputs
+    bg = []
+    for n, t in big_inputs(rng, toks, corp):
+        bg.append({"main": t, "mods": {}, "stream": "big:" + n})
+        c = as_import(t)
+        c["stream"] = "big-import:" + n
+        bg.append(c)
+    streams.append(("big", bg))
+    return streams
+
+
+# ---------------------------------------------------------------------------
+# grammar-directed programs: syntactically valid, semantically arbitrary (stress for the analyzer)
+# ---------------------------------------------------------------------------
+
+class Wild:
+    """Random programs that follow grammar.ebnf but ignore scoping and typing on purpose: names come from a
+    small pool so that definitions, uses, duplicates, shadowing and misuse (calling a type, spawning a
+    variable, importing twice, returning outside of functions' types …) all occur."""
+
+    NAMES = ["a", "b", "c", "f", "g", "h", "main", "x", "y", "T", "U", "println", "throw", "exit", "assert", "e", "i",
+             "time", "fa", "_", "_u", "len", "push", "join", "unwrap", "to_string", "keys"]
+    TYPES = ["int", "float", "bool", "str", "null", "any", "range", "T", "U", "unknown_t", "_"]
+    MODS = ["m", "lib", "main", "testing", "nosuch"]
+    INFIX = ["+", "-", "*", "/", "%", "**", "<<", ">>", "|", "&", "^", "||", "&&", "==", "!=", "<", "<=", ">", ">="]
+    ASSIGN = ["=", "+=", "-=", "*=", "/=", "%=", "**=", "<<=", ">>=", "|=", "&=", "^="]
+
+    def __init__(self, rng, depth=4):
+        self.r = rng
+        self.max = depth
+
+    def name(self):
+        return self.r.choice(self.NAMES)
+
+    def ty(self, d=0):
+        r = self.r
+        c = r.random()
+        if d >= 3 or c < 0.45:
+            return r.choice(self.TYPES)
+        if c < 0.55:
+            return "[" + self.ty(d + 1) + "]"
+        if c < 0.65:
+            return "?" + self.ty(d + 1)
+        if c < 0.70:
+            return "{ ? }"
+        if c < 0.80:
+            fields = ", ".join(f"{r.choice(['a', 'b', 'c', chr(34) + 'k' + chr(34)])}: {self.ty(d + 1)}" for _ in range(r.randrange(0, 3)))
+            return "{ " + fields + " }"
+        if c < 0.92:
+            ps = ", ".join(f"{self.name()}: {self.ty(d + 1)}" for _ in range(r.randrange(0, 3)))
+            ret = (" -> " + self.ty(d + 1)) if r.random() < 0.6 else ""
+            return f"fn({ps}){ret}"
+        return "$S"
+
+    def lit(self):
+        r = self.r
+        return r.choice(["0", "1", "42", "1.5", "true", "false", '"s"', "''", "null", "none", "9223372036854775807", "2f"])
+
+    def expr(self, d=0):
+        r = self.r
+        c = r.random()
+        if d >= self.max or c < 0.22:
+            return r.choice([self.lit(), self.name(), self.name(), "$S"])
+        d1 = d + 1
+        if c < 0.34:
+            return f"{self.expr(d1)} {r.choice(self.INFIX)} {self.expr(d1)}"
+        if c < 0.38:
+            return r.choice(["-", "!", "?"]) + self.expr(d1)
+        if c < 0.42:
+            return "(" + self.expr(d1) + ")"
+        if c < 0.52:
+            args = ", ".join(self.expr(d1) for _ in range(r.randrange(0, 3)))
+            return f"{self.expr(d1) if r.random() < 0.3 else self.name()}({args})"
+        if c < 0.55:
+            args = ", ".join(self.expr(d1) for _ in range(r.randrange(0, 3)))
+            return f"spawn {self.name()}({args})"
+        if c < 0.60:
+            return f"{self.expr(d1)}[{self.expr(d1)}]"
+        if c < 0.66:
+            return f"{self.expr(d1)}{r.choice(['.', '.', '->', '~>'])}{self.name()}"
+        if c < 0.69:
+            return f"{self.expr(d1)} as {self.ty()}"
+        if c < 0.72:
+            return f"{self.expr(d1)}..{'=' if r.random() < 0.3 else ''}{self.lit()}"
+        if c < 0.76:
+            return "[" + ", ".join(self.expr(d1) for _ in range(r.randrange(0, 3))) + "]"
+        if c < 0.80:
+            if r.random() < 0.2:
+                return "new { ? }"
+            return "new { " + ", ".join(f"{r.choice(['a', 'b', chr(34) + 'k' + chr(34)])}: {self.expr(d1)}" for _ in range(r.randrange(0, 3))) + " }"
+        if c < 0.84:
+            ps = ", ".join(f"{self.name()}: {self.ty()}" for _ in range(r.randrange(0, 3)))
+            ret = (" -> " + self.ty()) if r.random() < 0.5 else ""
+            return f"fn({ps}){ret} {self.block(d1)}"
+        if c < 0.88:
+            els = ""
+            if r.random() < 0.6:
+                els = " else " + (self.block(d1) if r.random() < 0.7 else f"if {self.expr(d1)} {self.block(d1)}")
+            return f"if {self.expr(d1)} {self.block(d1)}{els}"
+        if c < 0.92:
+            arms = []
+            for _ in range(r.randrange(0, 3)):
+                pats = " | ".join(self.lit() for _ in range(r.randrange(1, 3)))
+                arms.append(f"{pats} => {self.expr(d1)}")
+            if r.random() < 0.7:
+                arms.append(f"_ => {self.expr(d1)}")
+            return f"match {self.expr(d1)} {{ " + ", ".join(arms) + " }"
+        if c < 0.95:
+            return f"try {self.block(d1)} catch {self.name()} {self.block(d1)}"
+        if c < 0.98:
+            return f"{self.name()} {r.choice(self.ASSIGN)} {self.expr(d1)}"
+        return self.block(d1)
+
+    def stmt(self, d):
+        r = self.r
+        c = r.random()
+        d1 = d + 1
+        if c < 0.25:
+            ann = f": {self.ty()}" if r.random() < 0.4 else ""
+            return f"let {self.name()}{ann} = {self.expr(d1)};"
+        if c < 0.33:
+            return "return" + (" " + self.expr(d1) if r.random() < 0.7 else "") + ";"
+        if c < 0.37:
+            return r.choice(["break;", "continue;"])
+        if c < 0.41:
+            return f"loop {self.block(d1)}"
+        if c < 0.45:
+            return f"while {self.expr(d1)} {self.block(d1)}"
+        if c < 0.50:
+            return f"for {self.name()} in {self.expr(d1)} {self.block(d1)}"
+        if c < 0.53:
+            return f"type {r.choice(['T', 'U', 'V'])} = {self.ty()};"
+        if c < 0.56:
+            args = ", ".join(self.expr(d1) for _ in range(r.randrange(0, 3)))
+            return f"trigger {self.name()} {r.choice(['on', 'at', 'in'])} {self.name()}({args});"
+        e = self.expr(d1)
+        return e + (";" if r.random() < 0.9 else "")
+
+    def block(self, d):
+        r = self.r
+        if d >= self.max + 1:
+            return "{ }"
+        stmts = [self.stmt(d) for _ in range(r.randrange(0, 4))]
+        tail = (" " + self.expr(d + 1)) if r.random() < 0.3 else ""
+        return "{ " + " ".join(stmts) + tail + " }"
+
+    def fn(self, name=None):
+        r = self.r
+        ps = ", ".join(f"{self.name()}: {self.ty()}" for _ in range(r.randrange(0, 3)))
+        ret = (" -> " + self.ty()) if r.random() < 0.5 else ""
+        return f"fn {name or self.name()}({ps}){ret} {self.block(1)}"
+
+    def item(self):
+        r = self.r
+        c = r.random()
+        if c < 0.12:
+            what = r.choice(["", "type ", "templ ", "trigger "])
+            if r.random() < 0.5:
+                return f"import {what}{self.name()} from {r.choice(self.MODS)};"
+            names = ", ".join((r.choice(["", "type ", "templ "]) + self.name()) for _ in range(r.randrange(1, 3)))
+            return f"import {{ {names} }} from {r.choice(self.MODS)};"
+        if c < 0.22:
+            return f"{r.choice(['', 'pub '])}type {r.choice(['T', 'U', 'V'])} = {self.ty()};"
+        if c < 0.36:
+            ann = f": {self.ty()}" if r.random() < 0.4 else ""
+            return f"{r.choice(['', 'pub '])}let {self.name()}{ann} = {self.expr(1)};"
+        if c < 0.42:
+            return f"$S = {self.ty()};"
+        if c < 0.48:
+            caps = " with { a, b }" if r.random() < 0.4 else ""
+            fns = " ".join(self.fn() for _ in range(r.randrange(0, 3)))
+            return f"impl {self.name()}{caps} for $S {{ {fns} }}"
+        if c < 0.54:
+            items = ", ".join(r.choice([self.name(), f"trigger {r.choice(['on', 'at'])} {self.name()}({self.expr(2)})"])
+                              for _ in range(r.randrange(1, 3)))
+            return f"#[{items}] {r.choice(['', 'pub ', 'event '])}{self.fn()}"
+        return r.choice(["", "", "pub ", "event "]) + self.fn()
+
+    def program(self):
+        r = self.r
+        items = [self.item() for _ in range(r.randrange(0, 6))]
+        if r.random() < 0.8:
+            items.append(self.fn("main") if r.random() < 0.3 else "fn main() " + self.block(1))
+        r.shuffle(items)
+        return b("\n".join(items) + "\n")
+
+
+WILD_MODS = {"m": b"pub fn a() {}\npub fn f(x: int) -> int { x }\npub type T = int;\npub let b = 1;\nfn main() {}\n",
+             "lib": b"import a from m;\npub fn g() { a(); }\nfn h() {}\ntype U = str;\nfn main() {}\n"}
+
+
+def wild_cases(rng, n):
+    out = []
+    for _ in range(n):
+        w = Wild(rng, depth=rng.choice([2, 3, 4]))
+        p = w.program()
+        if rng.random() < 0.15:
+            out.append({"main": b("import a from wild;\nfn main() { a(); }\n"), "mods": dict(WILD_MODS, wild=p), "stream": "wild-import"})
+        else:
+            out.append({"main": p, "mods": WILD_MODS, "stream": "wild"})
     return out
